@@ -1,7 +1,10 @@
 ------------------------------- MODULE Trace_Denomination -------------------------------
 (* C16, code -> spec: validates the ndjson trace written by harness/h_tx/src/bin/c16_driver.rs.   *)
 (* Amounts are little-endian decimal digit sequences; the rule is DenominationD.tla.  Records are  *)
-(* independent; the only variable is the line counter.  Every line must be Allowed.               *)
+(* independent; the only variable is the line counter.  Every line must be Allowed.  The first    *)
+(* line of a file is a header {a: "chunk", base, stride, count}: the file must hold exactly       *)
+(* `count` more lines and they must carry the sequence numbers base + stride, base + 2*stride, .. *)
+(* that the driver wrote, so that a dropped line is rejected as well.                             *)
 EXTENDS DenominationD, Json, IOUtils
 
 VARIABLE l
@@ -10,7 +13,9 @@ Rec == ndJsonDeserialize(IOEnv.TRACE)
 \* TLC evaluates a constant definition once, before the search, and in that context it caches LET
 \* definitions and operator arguments; evaluated inside the action the recursive operators above
 \* would be re-evaluated at every use (measured: 3 s per line instead of milliseconds).
-Verdict == [i \in 1..Len(Rec) |-> Allowed(Rec[i])]
+Verdict == [i \in 1..Len(Rec) |->
+               IF i = 1 THEN Rec[1].a = "chunk" /\ Rec[1].count = Len(Rec) - 1
+               ELSE Rec[i].seq = Rec[1].base + (i - 1) * Rec[1].stride /\ Allowed(Rec[i])]
 
 TraceInit == l = 1
 TraceNext == l <= Len(Rec) /\ Verdict[l] /\ l' = l + 1
